@@ -37,8 +37,9 @@ var locationTable = []struct{ fn, loc string }{
 	{"AddPathSegment", "shared_error_value"}, // a ConstraintError shared between calls (scratch: its path segments)
 	{"inlineShorthand", "shorthand_marks"},   // walk marks of the shorthand guard (scratch L1..L3)
 	{"RootObject", "scope_root_memo"},        // link.root: the memoised root object of a scope
-	{"setupStepData", "step_table"},          // steps.table
-	{"ApplyNamespace", "link"},               // link.<ref>
+	{"releaseStepData", "step_table"},
+	{"setupStepData", "step_table"}, // steps.table
+	{"ApplyNamespace", "link"},      // link.<ref>
 	// lowest priority: convertData alone (the crashing goroutine of a fatal concurrent map access: it ranges
 	// over its raw data, which is shared only when it is the aliased default map)
 	{"convertData", "shared_default_map"},
